@@ -293,12 +293,18 @@ def prepare(sym: bool):
     if not hasattr(misc, "_symx_gcd"):
         misc._symx_gcd = misc.get_common_dtype
 
+        def _has_obj(a):
+            if isinstance(a, np.ndarray):
+                return a.dtype == object
+            if is_sym(a):
+                return True
+            if isinstance(a, (list, tuple)):
+                return any(_has_obj(x) for x in a)
+            return False
+
         def get_common_dtype(*args):
-            for a in args:
-                if isinstance(a, np.ndarray) and a.dtype == object:
-                    return np.dtype(object)
-                if is_sym(a):
-                    return np.dtype(object)
+            if any(_has_obj(a) for a in args):
+                return np.dtype(object)
             return misc._symx_gcd(*args)
 
         misc.get_common_dtype = get_common_dtype
